@@ -26,6 +26,7 @@ ASSUMPTIONS = [
 ]
 BUDGET = {'quick': 70000, 'thorough': None}   # L1 combinations per shard (None = the whole slice)
 L2_BUDGET = {'quick': 40, 'thorough': 600}
+L3_BUDGET = {'quick': 1500, 'thorough': 40000}
 
 PRESENT, ABSENT = '@present', '@absent'
 # (falsy literals are legal criteria and legal values: spec.f == 0, a label with an empty value)
@@ -463,6 +464,10 @@ def run_case(sc):
     if sc.get('mode') == 'L2':
         run_l2(sc, res)
         return res
+    if sc.get('mode') == 'L3':
+        from props import c15sel
+        c15sel.run_l3(sc, res)
+        return res
     decl, state, ck = sc['decl'], sc['state'], sc['cause']
     expected = judge(decl, state, ck, res)
     res.nontrivial = expected is not None and nontrivial_l1(decl, state, ck, expected)
@@ -565,4 +570,20 @@ def run_shard(ctx):
     out['samples'] += l2['samples'][:1]
     out['violations'] += l2['violations']
     out['harness_errors'] += l2['harness_errors']
+    # L3: the resource-selector criterion
+    from props import c15sel
+    n3 = L3_BUDGET[tier] if ctx['examples'] is None else max(5, ctx['examples'] // 40)
+    l3 = explore(c15sel.l3_scenarios(), run_case, seed=ctx['seed'] + 7, max_examples=n3, tier=tier, known_ids=ctx['known_ids'],
+                 shrink_keys=('rescans', 'cluster', 'handlers'))
+    out['evaluations'] += l3['evaluations']
+    out['nontrivial'] = sorted(set(out['nontrivial']) | set(l3['nontrivial']))
+    for k, v in l3['classes'].items():
+        out['classes'][k] = out['classes'].get(k, 0) + v
+    out['samples'] += l3['samples'][:1]
+    out['violations'] += l3['violations']
+    for part in (l2, l3):
+        for fid, slot in part['known'].items():
+            mine = out['known'].setdefault(fid, {'count': 0, 'example': slot['example']})
+            mine['count'] += slot['count']
+    out['harness_errors'] += l3['harness_errors']
     return out
